@@ -288,6 +288,20 @@ def run (args : List String) : Option String :=
     pure (fmtRes (fun (k : WarpKw) =>
       s!"resampling={k.resampling};src_nodata={fmtOpt fmtVal k.srcNd};dst_nodata={fmtOpt fmtVal k.dstNd};" ++
         ",".intercalate (k.extra.map fun p => s!"{p.1}={p.2}")) res)
+  | ["xrfill", path, chk, lo, hi, wlo, whi, attr, kwsn, dn] => do
+    -- unreached pixel of `xr_reproject(<dask|numpy>-backed integer raster lo..hi warped in wlo..whi, nodata attr, src_nodata=, dst_nodata=)`;
+    -- chk = T: with the entry check of fix3-C13
+    let chk ← parseBool? chk; let lo ← parseInt? lo; let hi ← parseInt? hi; let wlo ← parseInt? wlo; let whi ← parseInt? whi
+    let attr ← parseOpt? parseRaw? attr; let kwsn ← parseOpt? parseRaw? kwsn; let dn ← parseOpt? parseRaw? dn
+    if path = "dask" then pure (fmtGRes toString (xrFillDask chk ⟨lo, hi⟩ attr kwsn dn))
+    else if path = "whole" then pure (fmtGRes toString (xrFillWhole chk ⟨lo, hi⟩ ⟨wlo, whi⟩ attr kwsn dn))
+    else none
+  | ["fillfloat", p, v] => do
+    -- a nodata converted to a binary float type with p significant bits
+    let p ← parseNat? p; let v ← parseRaw? v
+    pure (match fillFloat p v with
+      | .nan => "n"
+      | .num q => fmtRat q)
   | "warp" :: rest => do
     -- `_rio_reproject` on a caller buffer (no NaN default); chunk fields unused
     let x ← parseCommon? rest
